@@ -170,7 +170,7 @@ def main():
                 continue
             nviol += 1
             os.makedirs(repdir, exist_ok=True)
-            path = os.path.join(repdir, sanitize(sig) + ".json")
+            path = os.path.join(repdir, sanitize(sig + ("." + "_".join(map(str, rep["args"])) if rep["args"] else "")) + ".json")
             json.dump({"property": prop, "exe": rep["_item"]["exe"], "harness": rep["harness"], "args": rep["args"],
                        "bound": f["bound"], "choices": f["choices"], "key": f["key"], "msg": f["msg"], "signature": sig,
                        "outcome": f["outcome"], "failing_schedules": f["count"], "detail": f["detail"],
